@@ -498,3 +498,18 @@ Proof.
     rewrite Forall_forall in Hc. specialize (Hc i Hi). unfold iend in Hc. lia.
   - exact I7.
 Qed.
+
+(* positions that no notified trial (kept or cancelled) covers are silent *)
+Corollary silence_elsewhere : forall p es ch pm ops q ev P,
+  wf_queue p es = true -> wf_hist all_rep (qinit p es ch pm) ops = true ->
+  timed_hist all_rep (qinit p es ch pm) ops = true ->
+  play_hist all_rep (qinit p es ch pm) [] ops = Some (q, ev, P) ->
+  forall s, 0 <= s < zlen P ->
+    (forall k t0, In (k, t0) (added_of ev) -> ~ (t0 <= s < t0 + len_of es k)) ->
+    znth P s = Some OZero.
+Proof.
+  intros p es ch pm ops q ev P W WH TH H s Hs Hn.
+  destruct (trials_in_stream p es ch pm ops q ev P W WH TH H) as (_ & _ & _ & HA).
+  destruct (znth_lt_Some P s Hs) as [x Hx]. rewrite Hx. f_equal.
+  destruct (HA s x Hx) as [H0|(k & t0 & Hin & _ & Hr)]; [exact H0|]. exfalso. exact (Hn k t0 Hin Hr).
+Qed.
